@@ -145,3 +145,52 @@ Fixpoint trace (s : mstate) (ops : list mop) : list (nat * list (Q * Q)) :=
   | [] => []
   | o :: os => let r := step s o in (snd r, pos (fst r)) :: trace (fst r) os
   end.
+
+(* ------------------------------------------------------------------ the posx / posy setters
+   (documented properties of the class; not among the four moving operations, so they are a
+   separate layer [hop] and the theorems about [step] / [run] do not speak about them).
+     _set_node_level_pos(value, reverse):  pos_levels = sorted(set(value), reverse=reverse)
+                                           levels = [index of v in pos_levels for v in value]
+        - peers_order and pos_peers are NOT recomputed
+        - posy setter in 'v' uses reverse=True; posx setter in 'h' uses reverse=False and stores the
+          x values as they are, although the getter returns -pos_levels[lvl]: reading posx back
+          after assigning it in 'h' yields the negated values (the code as it is)
+     _set_nodes_peers_pos(value):  per level (of the current self.levels) the nodes sorted by value;
+                                   pos_peers and peers_order recomputed from scratch              *)
+Definition set_level_pos (s : mstate) (value : list Q) (reverse : bool) : mstate :=
+  let lv := isort (fun a b => if reverse then Qle_bool b a else Qle_bool a b) (qdedup value) in
+  {| m_v := m_v s; m_levels := map (fun y => qindex y lv) value; m_order := m_order s;
+     m_plev := lv; m_ppeers := m_ppeers s |}.
+
+Definition set_peers_pos (s : mstate) (value : list Q) : mstate :=
+  let n := length (m_levels s) in
+  let xs := fun el => nth el value 0 in
+  let peers := map (fun l => isort (fun a b => Qle_bool (xs a) (xs b))
+                                   (filter (fun el => Nat.eqb (level_of s el) l) (seq 0 n)))
+                   (seq 0 (length (m_plev s))) in
+  {| m_v := m_v s; m_levels := m_levels s;
+     m_order := map (fun el => nindex el (nth (level_of s el) peers [])) (seq 0 n);
+     m_plev := m_plev s; m_ppeers := map (map xs) peers |}.
+
+Inductive hop :=
+| HOp (o : mop)
+| HSetX (l : list Q)      (* mover.posx = l *)
+| HSetY (l : list Q).     (* mover.posy = l *)
+
+Definition hstep (s : mstate) (h : hop) : mstate * nat :=
+  match h with
+  | HOp o => step s o
+  | HSetX l => (if m_v s then set_peers_pos s l else set_level_pos s l false, 0%nat)
+  | HSetY l => (if m_v s then set_level_pos s l true else set_peers_pos s l, 0%nat)
+  end.
+
+Fixpoint htrace (s : mstate) (ops : list hop) : list (nat * list (Q * Q)) :=
+  match ops with
+  | [] => []
+  | o :: os => let r := hstep s o in (snd r, pos (fst r)) :: htrace (fst r) os
+  end.
+Fixpoint hstates (s : mstate) (ops : list hop) : list mstate :=
+  match ops with
+  | [] => []
+  | o :: os => let s' := fst (hstep s o) in s' :: hstates s' os
+  end.
